@@ -14,6 +14,7 @@ ASSUMPTIONS = ['None entries mean the documented default +-1e3', 'only evaluatio
 CLASSES = {
     'ranges': {'quick': 1000, 'thorough': 12000},
     'initial_points': {'quick': 800, 'thorough': 6000},
+    'wrappers': {'quick': 400, 'thorough': 6000},
 }
 MIN_EVENTS = {'quick': {'assert:c02': 20000, 'box_rejections': 1000, 'assert:init': 400}}
 CASE_TIMEOUT = 120
@@ -25,6 +26,9 @@ def run_case(cls, idx, rng, obs):
     np.seterr(all='ignore')
     if cls == 'initial_points':
         return run_init(rng, obs)
+    if cls == 'wrappers':
+        from .c01 import run_wrapper
+        return run_wrapper(rng, obs, focus='c02')
     cfg = M.gen_cfg(rng, 'c02')
     obs.desc = cfg
     run = M.Run(cfg, obs, 'c02')
